@@ -62,7 +62,13 @@ Lemma expected_viol : forall v, vkind_eqb v VMsgLen63 = false ->
 Proof. intros [] H; try reflexivity. discriminate. Qed.
 
 Definition P_of (cfg : rcfg) : spolicy := go_policy (rc_close1_strict cfg) is_valid_received_close_code.
-Definition c_of (cfg : rcfg) : scfg := mkScfg (rc_server cfg) (rc_compress cfg) (rc_limit cfg) (rc_dlimit cfg).
+Definition c_of (cfg : rcfg) : scfg := mkScfg (rc_server cfg) (rc_compress cfg) (rc_limit cfg) (rc_dlimit cfg) (rc_avail cfg).
+
+Lemma gtrip_dtrip : forall cfg dc data, gtrip cfg dc data = dtrip (c_of cfg) dc data.
+Proof. reflexivity. Qed.
+
+Lemma norm_too_big : map norm_event too_big_after_decompression = expected [SEnd OTooBig].
+Proof. reflexivity. Qed.
 
 Lemma check_lax1 : forall cfg (b : bool) v k, go_lax (rc_close1_strict cfg) v = true ->
     check (P_of cfg) (if b then [v] else []) k = k.
